@@ -146,9 +146,9 @@ def oracle(case: Any, result: Any) -> Optional[str]:
 class Check(PropertyCheck):
     id = 'C19'
     props_module = 'Props.C19'
-    models = {'visitor': 'XVisitor.v'}
+    models = {'visitor': 'XVisitor.v', 'visitor_ir': 'XVisitorIR.v'}
     needs_gen = True
-    gen_modules = ['gen_c19']
+    gen_modules = ['gen_c19', 'gen_c19_code']
     rule = ('every ordered tree of <= N nodes x every assignment of {none,SkipChildren,SkipSiblings,SkipNode,'
             'SkipDeparture} to its nodes x every sequence of <= 3 extension timings x {walkabout, walk}; '
             'non-trivial = at least one pruning action and one extension; distinct by construction')
@@ -156,6 +156,9 @@ class Check(PropertyCheck):
         'Coq 8.16.1 kernel (coqc, vm_compute for Example witnesses; no native_compute)',
         'no axioms (Print Assumptions: Closed under the global context for every theorem)',
         'extraction: ExtrOcamlBasic only; OCaml 4.13.1; coq/ocaml/driver.ml',
+        'translators harness/gen/gen_c19_code.py (method bodies -> Gen/VisitorCode.v) and harness/gen/gen_c19.py (push/pop/raise sites); '
+        'the interpreter Model/VisitorIR.v is the stated meaning of the Python statements it covers (try/except class matching, '
+        'assignment, if, for over extension lists / children, raise of a caught exception, return)',
         'correspondence harness harness/c19.py + harness/impl/c19_visitor.py (instrumented subclasses of the real Visitor)',
         'modelled not verified: only the main visitor raises pruning exceptions, and only from visit_*; '
         'Python exception propagation is modelled as (trace, escaped) pairs',
@@ -165,13 +168,19 @@ class Check(PropertyCheck):
                  'participant sees exactly a depth-first enter/leave walk of the documented traversed sub-tree '
                  '(C19_walkabout_projection), global entry/exit order is the documented one (C19_walkabout_enter_order/'
                  '_leave_order), only the root SkipSiblings escapes, walk() likewise, and the builder scope stack is '
-                 'restored (C19_stack_empty). The model is tied to pydoctor/visitor.py by an exhaustive trace-for-trace '
+                 'restored (C19_stack_empty). Tie to the source, two ways: (a) harness/gen/gen_c19_code.py translates the bodies of '
+                 'Visitor.visit/depart/walk/walkabout statement by statement (fail-closed; _BaseVisitor dispatch, ExtList.add and the '
+                 'exception hierarchy pinned) into the deep-embedded language of Model/VisitorIR.v on every run, and '
+                 'C19_code_walkabout_is_model / _walk_ / _visit_ / _depart_ prove that interpreting THAT code is the model, for all '
+                 'inputs (C19_code_walkabout_projection states the property on the translated code); (b) an exhaustive trace-for-trace '
                  'correspondence check (all trees <= 3 nodes quick / <= 4 thorough x all prunings x all <= 3 timings) and the '
-                 'real AST builder is observed on generated modules.'),
+                 'real AST builder is observed on generated modules; reused visitors (extensions added between walks) and the three '
+                 'handler spellings (unknown_visit, visit_ClassDef, visit_classdef) are part of the stream.'),
         'note': ('Trusted: Coq kernel, ExtrOcamlBasic extraction + OCaml driver, the Python harness. Modelled not verified: '
                  'only the main visitor raises pruning exceptions and only from visit_*; that every non-raising path of '
                  'visit_ClassDef/_handleFunctionDef pushes is observed on generated modules, not proved.'),
-        'technique': 'Coq proof (induction on rose trees) + exhaustive model/implementation trace correspondence',
+        'technique': 'Coq proof (induction on rose trees) over a model regenerated from the source by a translator (deep-embedded '
+                     'statement language + interpreter, equivalence proved) + exhaustive model/implementation trace correspondence',
     }
     assumptions = ['extensions do not raise; pruning exceptions are raised by the main visitor inside visit_* only',
                    'extension ids are pairwise distinct and differ from the main visitor']
@@ -250,8 +259,17 @@ class Check(PropertyCheck):
         self.evaluations = len(cases)
         impl = lib.run_impl_worker('c19_visitor.py', cases, jobs=16)
         mod = self.model('visitor', [enc(c[:4]) for c in cases])
+        # the interpretation of the code TRANSLATED from visitor.py (Gen/VisitorCode.v): third leg of the comparison
+        modir = self.model('visitor_ir', [enc(c[:4]) for c in cases])
         out: List[Violation] = []
         nt = 0
+        for c, r, mi in zip(cases, impl, modir):
+            ir = dec(mi)
+            canon_ir = [{0: 0, 2: 1}.get(ir[0], 2), ir[1]]
+            if canon_ir != [r[0], r[1]] and len(out) < 10:
+                out.append(Violation('correspondence', 'the code translated from visitor.py (Gen/VisitorCode.v, interpreted by '
+                                     'Model.VisitorIR) and pydoctor.visitor disagree on a trace: the translator or the '
+                                     'statement language misrepresents the source', case=c, expected=canon_ir, observed=[r[0], r[1]]))
         for c, r, m in zip(cases, impl, mod):
             if c[1] and c[2]:
                 nt += 1
